@@ -233,6 +233,39 @@ def entity_programs():
                 yield 'entity-ctx:%d:%d:%s' % (wi, fi, pos), out[0], out[1]
 
 
+def long_programs():
+    """scale: tags far longer than a line -- long expressions, long
+    attribute values, many attributes, long names"""
+    for n in (3, 9, 12, 20, 40, 120, 600):
+        ex = ' + '.join(['y'] * n)
+        yield 'long', [T('a'), ['var', E(ex), [['html_quote', None]]], T('b')]
+        yield 'long', [['if', [[E(ex + ' > 0'), BODY]], [T('E')]]]
+        yield 'long', [['in', E('seq[:1 + %s - (%s)]' % (ex, ex)), IN_BODY,
+                        None, [['sort', 'k'], ['reverse', None]]]]
+        yield 'long', [['let', [['a', E(ex)], ['b', E('a + ' + ex)]],
+                        [['var', N('b'), []]]]]
+        yield 'long', [['with', E('obj if %s >= 0 else mp' % ex), BODY, []]]
+        yield 'long', [['unless', E(ex), BODY]]
+        yield 'long', [T('a'), ['var', N('u'), [['missing', 'm' * n * 4],
+                                                ['size', '7'], ['etc', '~']]],
+                       T('b')]
+        yield 'long', [T('a'), ['return', E('[%s]' % ex)], T('b')]
+    name = 'v' * 90
+    yield 'long', [['let', [[name, E('x')]], [['var', N(name), []]]]]
+    yield 'long', [T('a'), ['var', N('x'), [[m, None] for m in
+                                            ('lower', 'upper', 'capitalize',
+                                             'spacify', 'thousands_commas',
+                                             'url_quote', 'url_quote_plus',
+                                             'sql_quote', 'newline_to_br',
+                                             'html_quote')] +
+                            [['null', 'N'], ['size', '30'], ['etc', '~']]],
+                   T('b')]
+    yield 'long', [['in', N('seq'), IN_BODY, [T('E')],
+                    [['sort', 'k'], ['reverse', None], ['start', '1'],
+                     ['size', '2'], ['orphan', '0'], ['overlap', '0'],
+                     ['prefix', 'p'], ['skip_unauthorized', None]]]]
+
+
 def elseblk_programs():
     """the deprecated stand-alone else block, alone and inside blocks whose
     own name it is a (word or mid-word) prefix of"""
@@ -251,6 +284,8 @@ def programs(tier):
     for label, nodes in simple_programs():
         yield label, nodes
     for label, nodes in elseblk_programs():
+        yield label, nodes
+    for label, nodes in long_programs():
         yield label, nodes
     for wi, w in enumerate(BLOCK_WRAPPERS):
         for label, nodes in nest_subset():
